@@ -70,8 +70,10 @@ fn ktype_of<K: TestKey>() -> &'static str {
 /// interleaved and abandoned transactions, in-process reopen, async mode.
 fn build_case<K: TestKey>(p: &Params, id: u64) -> Case<K> {
     let mut rng = Rng::derive(p.seed ^ 0xC3A5, id);
-    let class_id = id % 7;
+    let class_id = id % 8;
     let (class, n_ops, sync): (&'static str, u64, bool) = match class_id {
+        7 if p.mode == "kill" => ("cross-device-shards", 1000, true),
+        7 => ("rollover", 2, true),
         0 => ("rollover", *rng.pick(&[1u64, 2, 3]), true),
         1 => ("checkpoint-shared", *rng.pick(&[2u64, 3, 1000]), true),
         2 => ("large-record", *rng.pick(&[2u64, 3, 1000]), true),
@@ -116,6 +118,16 @@ fn build_case<K: TestKey>(p: &Params, id: u64) -> Case<K> {
         });
         ops.push(Op::Put { key: g.keys[1].clone(), content: g.contents[0], chunks: vec![] });
         ops.push(Op::Remove { key: long });
+        for op in &ops {
+            mr.step(op);
+        }
+    } else if class == "cross-device-shards" {
+        let c0 = Content::new(300, 5000);
+        let c1 = Content::new(301, 40);
+        ops.push(Op::Put { key: g.keys[0].clone(), content: c0, chunks: vec![] });
+        ops.push(Op::Put { key: g.keys[1].clone(), content: c0, chunks: vec![1000] });
+        ops.push(Op::Put { key: g.keys[0].clone(), content: c1, chunks: vec![] });
+        ops.push(Op::Remove { key: g.keys[1].clone() });
         for op in &ops {
             mr.step(op);
         }
@@ -164,6 +176,51 @@ fn build_case<K: TestKey>(p: &Params, id: u64) -> Case<K> {
     cont.push(Op::Remove { key: k0 });
     cont.push(Op::Put { key: k1, content: g.contents[0], chunks: vec![] });
     Case { id, class, ktype: ktype_of::<K>(), n_ops, sync, ops, cont }
+}
+
+/// Removes the cross-device shard directories of one run.
+struct XdevGuard(Option<PathBuf>);
+impl Drop for XdevGuard {
+    fn drop(&mut self) {
+        if let Some(p) = &self.0 {
+            fsx::rm_rf(p);
+        }
+    }
+}
+
+/// Unusual but legal layout for the class "cross-device-shards": every first-level shard directory
+/// `cas/xx` is a symlink to a directory on ANOTHER filesystem (`Cas::open` only checks that the
+/// three root directories share one). A commit then cannot rename its staging file into place.
+/// Correct code fails such a put cleanly; whatever it does, nothing may appear under a blob's
+/// final name that is not the complete blob (C06).
+fn prepare_layout<K: TestKey>(case: &Case<K>, root: &Path) -> XdevGuard {
+    if case.class != "cross-device-shards" {
+        return XdevGuard(None);
+    }
+    use std::os::unix::fs::MetadataExt;
+    let exe = std::env::current_exe().unwrap_or_default();
+    let base = std::env::var("VERIF_XDEV")
+        .map(PathBuf::from)
+        .unwrap_or_else(|_| exe.parent().unwrap_or(Path::new("/")).join("../../../scratch/xdev"));
+    let other = base.join(format!("{}-{}", std::process::id(), root.parent().and_then(|p| p.file_name()).map(|s| s.to_string_lossy().to_string()).unwrap_or_default()));
+    if std::fs::create_dir_all(&other).is_err() || std::fs::create_dir_all(root.join("cas")).is_err() {
+        return XdevGuard(None);
+    }
+    let same_fs = match (std::fs::metadata(&other), std::fs::metadata(root)) {
+        (Ok(a), Ok(b)) => a.dev() == b.dev(),
+        _ => true,
+    };
+    if same_fs {
+        // no second filesystem available here: the class degenerates to an ordinary history
+        fsx::rm_rf(&other);
+        return XdevGuard(None);
+    }
+    for i in 0..256u32 {
+        let name = format!("{i:02x}");
+        let _ = std::fs::create_dir_all(other.join(&name));
+        let _ = std::os::unix::fs::symlink(other.join(&name), root.join("cas").join(&name));
+    }
+    XdevGuard(Some(other))
 }
 
 struct Dirs {
@@ -285,6 +342,12 @@ fn expectations<K: TestKey>(case: &Case<K>, ack: &AckInfo) -> Expect<K> {
         match ack.ops.get(&i) {
             Some(a) => match &a.end {
                 Some((_, res)) => {
+                    if case.class == "cross-device-shards" && res.is_err() {
+                        // in this layout a put is allowed to fail cleanly (rename across devices);
+                        // a failed put changes nothing
+                        acked += 1;
+                        continue;
+                    }
                     let want = mr.step(op);
                     acked += 1;
                     match res {
@@ -750,6 +813,7 @@ fn trace_run<K: TestKey>(p: &Params, case: &Case<K>, rep: &mut Report) -> Option
     let ack = dirs.file("ack");
     let tr = dirs.file("trace");
     let root = dirs.root();
+    let _xdev = prepare_layout(case, &root);
     let r = run_driver(
         &p.tools,
         &run_args(case, &root, &script, &ack, false),
@@ -820,6 +884,7 @@ fn kill_job<K: TestKey>(p: &Params, case: &Case<K>, tr: &TraceRun, k: u64, rep: 
     std::fs::write(&script, enc_script(&case.ops)).unwrap();
     let ack = dirs.file("ack");
     let root = dirs.root();
+    let _xdev = prepare_layout(case, &root);
     let r = run_driver(
         &p.tools,
         &run_args(case, &root, &script, &ack, false),
@@ -885,7 +950,8 @@ fn kill_job<K: TestKey>(p: &Params, case: &Case<K>, tr: &TraceRun, k: u64, rep: 
         rep.count("crash_between_operations", 1);
     }
     let acked_versions = acked_versions_of(&ackinfo);
-    let with_cont = p.thorough || k % 3 == 0;
+    // (in the cross-device layout puts are expected to fail, so there is nothing to continue with)
+    let with_cont = (p.thorough || k % 3 == 0) && case.class != "cross-device-shards";
     let findings = judge_image(
         p,
         case,
@@ -937,6 +1003,7 @@ fn nested_kill<K: TestKey>(p: &Params, case: &Case<K>, _ack: &AckInfo, k: u64, s
     std::fs::write(&script, enc_script(&case.ops)).unwrap();
     let ack = base.file("ack");
     let root = base.root();
+    let _xdev = prepare_layout(case, &root);
     let r = run_driver(
         &p.tools,
         &run_args(case, &root, &script, &ack, false),
